@@ -9,6 +9,16 @@
 // the statement, refaddr for destination scripts, gocoin's VerifyTxScript with
 // standard flags AND the independent interpreter refscript for every input,
 // refsig's RFC 6979 signer for -rfc6979.
+//
+// Mutants this check must kill (patches in /verif/mutants/C13-*.patch, runner
+// checks/c13/mutants.sh): change computed without the fee; funds check ignoring
+// the fee; -f applied to every pair; default change to the first listed output
+// even if foreign; BIP143 amount taken from the first input; last of three inputs
+// left unsigned; taproot digest for SIGHASH_ALL signed without the type byte;
+// Schnorr signing without negating the key of an odd-Y point; compressed public
+// key parity fix reverted (directed small-Y wallets); -rfc6979 ignored; -locktime
+// ignored; -raw applying -seq / resetting the lock time; spent output kept in
+// unspent.txt.
 package main
 
 import (
@@ -182,7 +192,7 @@ func main() {
 	if r.Thorough() {
 		r.Budget = 27 * time.Minute
 	} else {
-		r.Budget = 150 * time.Second
+		r.Budget = 170 * time.Second
 	}
 	sp := makeSpace(r.Thorough())
 	var cases []*Case
@@ -290,6 +300,7 @@ func main() {
 			distinct++
 		}
 	}
+	os.RemoveAll(base) // Finish and HarnessError exit without running deferred calls
 	if written == 0 || inputs == 0 {
 		ev.HarnessError("vacuous run: no transaction was written and judged")
 	}
